@@ -29,6 +29,38 @@ def _replay(obj, ctx):
     return 0
 
 
+def _post(ctx):
+    """Stalls that need an interleaving: the suite drives the three handlers one call at a time, so two handlers waiting for
+    each other's lock never shows there. What excludes it is the lock order (C20: `no_deadlock_of_ranked` over the table the
+    translator regenerates from the current sources): a nested acquisition against the order in native code, not listed under
+    C20, is reported here as well, with the edge as the replay."""
+    import json
+    p = os.path.join(ctx["cache"], "extract", "report.json")
+    if not os.path.exists(p):
+        return {"findings": []}
+    r = json.load(open(p))
+    kf = json.load(open(os.path.join(ctx["root"], "known_findings.json")))
+    kf = kf["findings"] if isinstance(kf, dict) else kf
+    listed = {k["key"] for k in kf if k.get("property") == "C20" and k.get("status") == "known"}
+    findings, n = [], 0
+    for e in r.get("edges", []):
+        n += 1
+        if e["held"] < e["acquired"]:
+            continue
+        if f'C20/{e["fn"]}/{e["held"]}->{e["acquired"]}' in listed:
+            continue
+        key = f'C11/stall-possible/lock-order/{e["fn"]}/{e["held"]}->{e["acquired"]}'
+        if not any(f["key"] == key for f in findings):
+            findings.append({"key": key, "kind": "nested lock acquisition against the documented order in a handler (static, from the regenerated table): "
+                             "two handlers can wait for each other",
+                             "what": e["provenance"],
+                             "replay": {"function": e["fn"], "held_rank": e["held"], "acquired_rank": e["acquired"], "at": f'{e["file"]}:{e["line"]}',
+                                        "call_path": e["via"] or "(direct acquisition)", "inner_acquisition_at": e["acquired_at"],
+                                        "how_to_reproduce": "hold the lower-ranked lock in another task (the order everywhere else) and let it ask for the higher-ranked "
+                                                            "one while this function is between its two acquisitions"}})
+    return {"findings": findings, "evaluations": 0, "hist": {"lock-edges-looked-at": n}}
+
+
 PROP = {
     "technique": "Lean 4 theorems over an executable model of the DECISION logic of the three event handlers (which check happens in which order "
                  "before each panic site; panic and stall are explicit outcomes; one flag per reproduced site) + differential run against the REAL "
@@ -44,11 +76,14 @@ PROP = {
                   "real node, event class) -> outcome class, reply-sent bit, queue growth, sender's status/key/challenge after the call.",
     "level_note": "PARTIAL by construction: the model carries the handlers' decision logic; tokio channel closure / back-pressure (the busy loop of "
                   "send_to_verification_thread is guarded by is_ready_to_process in run_thread and is not reached with one send per event), sockets and timers are "
-                  "runtime behaviour it cannot exhibit; what Blockchain::add_block does with a block is an input class here (Model/Chain.lean models it for C03-C05). "
+                  "runtime behaviour it cannot exhibit; a stall that needs two handlers to interleave (each waiting for the other's lock) cannot occur in a suite that calls one handler at a time: "
+                  "it is excluded by the lock order, so a nested acquisition against that order which C20 does not list is reported under C11 as well (static, from the regenerated lock table); "
+                  "what Blockchain::add_block does with a block is an input class here (Model/Chain.lean models it for C03-C05). "
                   "On the pinned tree the property is violated at twelve panic sites and one livelock (known_findings.json); ./check passes with KNOWN-FINDING "
                   "lines and reports any panic/stall outside the listed (handler, site, input class) triples as a VIOLATION.",
     "lean_modules": ["Saito.Props.C11"],
     "replay": _replay,
+    "post": _post,
     "suites": ["disp"],
     "relevant": lambda op, a, b: True,
     "nontrivial": lambda op, a: cls(a) != "handled",
